@@ -140,7 +140,12 @@ def gen_edit(rng, p, kinds=None, hint=None, standalone=False):
             n = _free(rng, {t.number for t in T})
             return [[k, pick(range(len(T))), ci.enc(float(n) if rng.random() < 0.2 else n)]]
         if k == "uniNumber":
-            i = pick(i for i, u in enumerate(U) if u.number != 0)
+            # universes inside a matrix FILL are references the reference model does not follow (C04): not renumbered here
+            in_matrix = set()
+            for c in C:
+                if c.fill.multiple_universes and c.fill.universes is not None:
+                    in_matrix |= {id(u) for u in c.fill.universes.flatten()}
+            i = pick(i for i, u in enumerate(U) if u.number != 0 and id(u) not in in_matrix)
             if i is not None:
                 return [[k, i, ci.enc(_free(rng, {u.number for u in U}))]]
         if k == "material" and C:
